@@ -329,6 +329,10 @@ class Ev:
             i = self.ev(sl)
             if isinstance(i, D) and i.kind == "rng" and base.kind == "out":
                 return D("view", out=base, lo=i.lo, hi=i.hi, is_view=False)
+            if isinstance(i, D) and i.kind == "slc":
+                if base.kind == "out":
+                    return D("view", out=base, lo=i.lo, hi=i.hi, is_view=True)
+                return D("win", base=base, lo=i.lo, hi=i.hi)
             return Unknown(f"subscript {u(e)[:40]}")
         return Unknown(f"subscript {u(e)[:40]}")
 
@@ -428,6 +432,19 @@ class Ev:
             if isinstance(v, list):
                 return [sp.Function("pos_in_" + (arr.kind if isinstance(arr, D) else "unknown"))(x) for x in v]
             return Unknown("searchsorted")
+        if d == "slice" and len(e.args) == 2:
+            a = [self.ev(x) for x in e.args]
+            if _isnum(a[0]) and _isnum(a[1]):
+                return D("slc", lo=a[0], hi=a[1])
+            return Unknown("slice")
+        if nm == "getnnz" and isinstance(e.func, ast.Attribute):
+            base = self.ev(e.func.value)
+            ax = arg_or_kw(e, 0, "axis")
+            if isinstance(base, D) and base.kind == "matrix" and isinstance(ax, ast.Constant) and ax.value in (0, 1) and self.fmt is not None:
+                per = "row" if ax.value == 1 else "column"
+                major = "row" if self.fmt == "csr" else "column"
+                return D("counts") if per == major else D("counts", wrong=f"the number of stored entries per {per} (getnnz(axis={ax.value})), but a {self.fmt} matrix stores its entries {major} by {major}")
+            return Unknown("getnnz")
         if d == "np.arange":
             a = [self.ev(x) for x in e.args]
             if len(a) == 1 and _isnum(a[0]):
@@ -442,9 +459,9 @@ class Ev:
             r, c = self.ev(e.args[0]), self.ev(e.args[1])
             if isinstance(r, D) and r.kind == "rng":
                 if isinstance(c, D) and c.kind == "counts" and _eq(r.lo, 0) and _eq(r.hi, NN):
-                    return D("idx", role="major")
+                    return D("idx", role="major", wrong=getattr(c, "wrong", None))
                 if isinstance(c, D) and c.kind == "win" and isinstance(c.base, D) and c.base.kind == "counts":
-                    return D("rep", lo=r.lo, hi=r.hi, clo=c.lo, chi=c.hi)
+                    return D("rep", lo=r.lo, hi=r.hi, clo=c.lo, chi=c.hi, wrong=getattr(c.base, "wrong", None))
                 if _isnum(c):
                     return D("repeat_each", rng=r, reps=c)
             return Unknown("repeat")
@@ -627,7 +644,7 @@ class Ev:
                     self.event(("out", base, b[0], b[1], val, s))
                     return
                 i = self.ev(sl)
-                if isinstance(i, D) and i.kind == "rng":
+                if isinstance(i, D) and i.kind in ("rng", "slc"):
                     self.event(("out", base, i.lo, i.hi, val, s))
                     return
                 raise self.und(f"store into the output array through {u(sl)[:40]}")
@@ -734,6 +751,14 @@ def _kernel_parity(ctx: Ctx, mod, qual: str, fn: ast.FunctionDef, fmt: str) -> O
             if r is None:
                 raise Undecided(f"{MO}:{qual}: block {ib}: cannot tell whether the {nm} scatter index `{opnd!r}` holds row or column indices")
             roles.append(r)
+            root = core_i
+            while isinstance(root, D) and root.kind in ("win", "cast", "shift"):
+                root = root.base
+            why = getattr(root, "wrong", None)
+            if why:
+                ctx.check("R4", False, mod, qual, sst, f"[{fmt}] block {ib}: the line index of each stored entry is obtained by repeating the line numbers with {why}: "
+                          f"the expanded indices do not follow the storage order (invisible for full blocks, where both counts agree)",
+                          construct=f"{tag}: entry counts used to expand the {r} index")
             ok = c is not None and _eq(c, O1(ib))
             ctx.check("R2", ok, mod, qual, sst, f"[{fmt}] block {ib}: the global {r} indices are shifted by {c} to local ones; block {ib} starts at {O1(ib)}",
                       construct=f"{tag}: shift of the {r} index of block {ib}", desc=f"[{fmt}] block {ib}: {r} index shifted by the block start")
@@ -1231,6 +1256,8 @@ MUTANTS = [
     _m("numba-counts-cut-with-nnz-offsets", "                            row_reps[idx_block[0] : idx_block[1]],\n", "                            row_reps[idx_nnz[ib] : idx_nnz[ib + 1]],\n", "R4"),
     _m("numba-data-cut-with-line-offsets", "                flat_block[sequence_ij] = data[idx_nnz[ib] : idx_nnz[ib + 1]]\n", "                flat_block[sequence_ij] = data[idx_blocks[ib] : idx_blocks[ib + 1]]\n", "R4"),
     _m("numba-nnz-from-output-offsets", "            idx_nnz = np.searchsorted(indices, idx_blocks).astype(np.int32)\n", "            idx_nnz = np.searchsorted(indices, idx_inv_blocks).astype(np.int32)\n", "R4"),
+    dict(name="seed-csc-line-counts-per-row", rule="R4", control=False, edits=[
+        dict(file=MO, old="            col_reps = a.indptr[1 : a.indptr.size] - a.indptr[0 : a.indptr.size - 1]\n            # cols are in fact a vector", new="            col_reps = a.getnnz(axis=1)\n            # cols are in fact a vector")]),
     # R5 dispatch
     dict(name="kernel-gets-unfiltered-sizes", rule="R5", control=False, edits=[
         dict(file=MO, old="    s = s[s > 0]\n", new="    s_pos = s[s > 0]\n"),
